@@ -661,6 +661,7 @@ DEF_ROW_RE = r"^DEF\((\w+)\s*\((.*?)\),\s*(\w+)\s*,\s*(\w+)\s*,\s*(\d)\s*,\s*(\d
 
 # files whose every logging call is listed (the code that runs during decompression)
 DATA_FILES = ["src/expand.c", "src/parse.c", "src/decode.c", "src/process.c"]
+LOCK_PRIMS = ("sched_lock", "sched_unlock")
 
 
 def def_rows_raw(main_c):
@@ -916,12 +917,27 @@ def gen_datafail(repo):
     # ---- every logging call of the decompression code
     names = set(rows)
     all_calls = []      # (file, func, logfn)
+    all_effects = []    # (file, func, [lock operations / callees with lock operations])
     sites = []
     for rel in DATA_FILES:
         src = read(rel)
         stripped, funcs = functions_of(src)
         total = count_ids(stripped, names)
         inside = {}
+        # scheduler-lock operations of every function of this file, in source order (direct calls,
+        # and calls of functions of this file that have such operations themselves)
+        direct = {}
+        for fname, body, _, _ in funcs:
+            seq = [c for c in calls_in(body) if c in LOCK_PRIMS]
+            if seq:
+                direct[fname] = seq
+        effects = {}
+        for fname, body, _, _ in funcs:
+            seq = [c for c in calls_in(body) if c in LOCK_PRIMS or (c in direct and c != fname)]
+            if seq:
+                effects[fname] = seq
+        for k, v in effects.items():
+            all_effects.append((rel, k, v))
         for fname, body, _, _ in funcs:
             cnt = count_ids(body, names)
             if not cnt:
@@ -935,8 +951,17 @@ def gen_datafail(repo):
                 raise ParseError("%s %s(): %r logging calls in the text but %r as plain call statements" % (rel, fname, cnt, got))
             for k, v in cnt.items():
                 inside[k] = inside.get(k, 0) + v
-            lock_ops = [c for c in calls_in(body) if c in ("sched_unlock", "sched_lock", "xunlock", "xlock", "xwait")]
-            for logfn, args, st, conds in found:
+            order = calls_in(body)
+            logpos = [i for i, c in enumerate(order) if c in names]
+            if len(logpos) != len(found):
+                raise ParseError("%s %s(): call order list and statement walk disagree" % (rel, fname))
+            for (logfn, args, st, conds), pos in zip(found, logpos):
+                if order[pos] != logfn:
+                    raise ParseError("%s %s(): call order list and statement walk disagree on %s" % (rel, fname, logfn))
+                lock_trace = [c for c in order[:pos] if c in LOCK_PRIMS or c in effects]
+                for c in lock_trace:
+                    if c in effects and any(x not in LOCK_PRIMS for x in effects[c]):
+                        raise ParseError("%s %s(): callee %s changes the scheduler lock through further callees" % (rel, fname, c))
                 all_calls.append((rel, fname, logfn))
                 f, x, warn, bail, nl = ctx.def_rows[logfn]
                 if x or not (warn or bail):
@@ -980,7 +1005,7 @@ def gen_datafail(repo):
                     raise ParseError("%s: cannot tell which thread executes %s()" % (where, fname))
                 ops = op_of(st, ctx, where)
                 sites.append(dict(file=rel, func=fname, logfn=logfn, thread=thread, ops=ops, warn=warn, bail=bail,
-                                  fs=f, nl=nl, fmt=fmt, arg=arg, conds=conds, locked=not lock_ops))
+                                  fs=f, nl=nl, fmt=fmt, arg=arg, conds=conds, lock_trace=lock_trace))
         for k, v in total.items():
             if inside.get(k, 0) != v:
                 raise ParseError("%s: %d calls of %s in the file but %d inside recognised function bodies" % (rel, v, k, inside.get(k, 0)))
@@ -1000,7 +1025,8 @@ def gen_datafail(repo):
   ds_nl : bool;
   ds_fmt : string; ds_arg : site_arg;
   ds_conds : list string;    (* enclosing conditions, outermost first (documentation) *)
-  ds_lock_held : bool        (* the enclosing function never releases/takes the scheduler lock *)
+  ds_lock_trace : list string (* scheduler-lock operations of the enclosing function that precede the call
+                                 in source order: sched_lock / sched_unlock / callees listed in lock_effects *)
 }.
 
 """
@@ -1009,11 +1035,15 @@ def gen_datafail(repo):
         "mk_data_site %s %s %s %s %s %s %s %s %s\n    %s (%s)\n    %s %s" % (
             coq_string(d["file"]), coq_string(d["func"]), coq_string(d["logfn"]), d["thread"], coq_list(d["ops"]),
             coq_bool(d["warn"]), coq_bool(d["bail"]), coq_bool(d["fs"]), coq_bool(d["nl"]),
-            coq_string(d["fmt"]), d["arg"], coq_list([coq_string(c) for c in d["conds"]]), coq_bool(d["locked"]))
+            coq_string(d["fmt"]), d["arg"], coq_list([coq_string(c) for c in d["conds"]]), coq_list([coq_string(c) for c in d["lock_trace"]]))
         for d in sites)
     s += "(* every call of a DEF() logging function in those files: (file, function, logging function) *)\n"
     s += "Definition decomp_log_calls : list (string * string * string) := [\n  %s].\n\n" % ";\n  ".join(
         "(%s, %s, %s)" % tuple(coq_string(x) for x in c) for c in all_calls)
+    s += "(* functions of those files that operate the scheduler lock: their sched_lock/sched_unlock calls and\n"
+    s += "   calls of other such functions, in source order *)\n"
+    s += "Definition lock_effects : list (string * list string) := [\n  %s].\n\n" % ";\n  ".join(
+        "(%s, %s)" % (coq_string(f), coq_list([coq_string(c) for c in v])) for _, f, v in all_effects)
     s += "(* the literal filespec / errno arguments of the DEF rows *)\n"
     s += "Definition def_row_args : list (string * (string * string)) := [%s].\n\n" % "; ".join(
         "(%s, (%s, %s))" % (coq_string(k), coq_string(v[0]), coq_string(v[1])) for k, v in rows.items())
